@@ -147,6 +147,19 @@ CLAIMED = {
         "independence are value-level and not decided.",
         design_ref="DESIGN.md §4 C18",
     ),
+    "C20": dict(
+        technique=TECH + "expiry-guard dominance, TTL decrement dataflow per section, who-may-stamp created_at "
+        "audit, arm-to-Config-field table of validity(), closure-capture provenance of the DNSSEC stripping",
+        text="Decides structural necessary conditions of C20: Value::get_response serves only on the "
+        "elapsed <= valid_for edge with the elapsed seconds as decrement; decrement_ttl sets ttl - amount in all "
+        "three sections before copying (OPT excepted) and never adds; created_at = now() only in Value::new, which "
+        "is called only with the upstream's fresh response, every derived entry inherits created_at; validity() "
+        "caps NODATA/delegation/NXDOMAIN/other/transport failure by their own Config fields, folds every record "
+        "TTL, gives zero for TC (unless configured) and weird answers; a hit under a key with more flags is "
+        "returned and cached only after remove_dnssec/update_header, keyed on the requested key's AD flag; "
+        "zero-validity values are never inserted. Clock behaviour and moka eviction are not decided.",
+        design_ref="DESIGN.md §4 C20",
+    ),
 }
 
 NOT_APPLICABLE = {
